@@ -332,6 +332,12 @@ def fields(rep, prog):
     rep.ob('R15.fields', 'document', okd, "document = {'circuit', 'simple_circuit'} on both sides", prog.site(sm, da or sm.tree))
 
 
+def show_key(k):
+    from ..terms import show
+    try: return show(k)
+    except Exception: return repr(k)[:80]
+
+
 def term_atom(k):
     """the atom of a key that is a single atom, else None"""
     from ..terms import term_from_key, Poly
@@ -399,6 +405,34 @@ def handlers(rep, prog, classes):
         okp = any(_tkey(l) == _tkey(want) for _, l in paths_of(t))
         if not okp and any('?' in repr(_tkey(l)) for _, l in paths_of(t)): okp = None
     rep.ob('R15.handlers', 'place_after', okp, 'positioned at the end terminal of the referenced element', prog.site(hm, g) if g is not None else '')
+    # place_after names an element: the element returned is the one of that NAME -- a position found in a list of names is used on the list
+    # the names were taken from, one to one (no filter, same list)
+    gp = hm.defs.get('get_placed_element')
+    okl, why = None, 'lookup not followed'
+    if isinstance(gp, ast.FunctionDef):
+        ev = Evaluator(prog)
+        t = ev.call_fn(gp, hm, [A('schematic'), A('label')], {}, {'__parent__': None}, 1)
+        verdicts = []
+        for pc, leaf in paths_of(t):
+            if leaf is None: continue
+            at = leaf.as_atom() if isinstance(leaf, Poly) else None
+            v_ = None
+            if isinstance(at, tuple) and len(at) == 3 and at[0] == '[]':
+                base, ik = at[1], at[2]
+                ia = term_atom(ik)
+                if isinstance(ia, tuple) and ia[0] == 'call' and isinstance(ia[1], tuple) and ia[1][0] == '.' and ia[1][2] == 'index' and ia[2] == (_tkey(A('label')),):
+                    ck = ia[1][1]
+                    if isinstance(ck, tuple) and ck[:2] == ('comp', 'list') and len(ck[3]) == 1:
+                        src_, filt_ = ck[3][0]
+                        same_list = term_atom(src_) == base
+                        names = term_atom(ck[2])
+                        is_name = isinstance(names, tuple) and names[0] == '.' and names[2] == 'name' and isinstance(names[1], tuple) and names[1][0] == 'β'
+                        if is_name: v_ = bool(same_list and not filt_)
+                        why = f'names of {show_key(src_)}' + (' (filtered)' if filt_ else '') + f' index {show_key(Poly.atom(base).key())}'
+            verdicts.append(v_)
+        if verdicts: okl = False if False in verdicts else (None if None in verdicts else True)
+    rep.ob('R15.handlers', 'place_after:lookup', okl, ('the element of the given name: ' if okl else 'the position found among the names does not address the same list one to one: ' if okl is False else '') + why,
+           prog.site(hm, gp) if gp is not None else '')
     h = hm.defs.get('element_factory')
     okf = None
     if isinstance(h, ast.FunctionDef):
